@@ -155,9 +155,14 @@ fn main() {
   ctx.threads = ctx.threads.min(8);
   let n = ctx.n(48, 1600);
   ctx.run_cases("scenario", n, |rng: &mut Rng, l: &mut Local, scratch| {
-    let a = scratch.join("orig-index-A");
-    let b = scratch.join("copy-index-B");
-    let moved = scratch.join("orig-index-A.moved-away");
+    // directory names: unrelated, and the textual-prefix relations that real backup names have
+    // (catalog-2024 -> catalog, idx -> idx.bak, idx2 -> idx): a path comparison by string prefix
+    // instead of by component confuses exactly these
+    let (name_a, name_b) = [("orig-index-A", "copy-index-B"), ("catalog-2024", "catalog"), ("idx", "idx.bak"), ("idx2", "idx")][((l.case_idx / 4) % 4) as usize];
+    l.count(&format!("naming[{name_a}->{name_b}]"), 1);
+    let a = scratch.join(name_a);
+    let b = scratch.join(name_b);
+    let moved = scratch.join(format!("{name_a}.moved-away"));
     for p in [&a, &b, &moved] {
       let _ = std::fs::remove_dir_all(p);
     }
@@ -223,7 +228,7 @@ fn main() {
         return;
       }
     };
-    let case = |extra: Value| json!({"variant": variant, "segments": segs, "has_deletions": has_del, "has_queued_records": has_wal, "original": a.to_string_lossy(), "copy": b.to_string_lossy(), "extra": extra});
+    let case = |extra: Value| json!({"variant": variant, "naming": format!("{name_a}->{name_b}"), "segments": segs, "has_deletions": has_del, "has_queued_records": has_wal, "original": a.to_string_lossy(), "copy": b.to_string_lossy(), "extra": extra});
     if !o.ok() || !op.exists() {
       l.fail(format!("worker-died:{variant}"), format!("using the copy crashed the process: code {:?} signal {:?} {}", o.code, o.signal, o.stderr_str().chars().take(300).collect::<String>()), case(json!(null)));
       return;
@@ -264,11 +269,16 @@ fn main() {
         file_syscalls += 1;
       }
       // `needle` is a prefix of the moved-away name too; a hit on the exact old path or below it counts
-      if let Some(pos) = line.find(&needle) {
+      // every occurrence: the copy's own name may contain the original's name as a textual prefix
+      let mut from = 0;
+      while let Some(off) = line[from..].find(&needle) {
+        let pos = from + off;
         let rest = &line[pos + needle.len()..];
         if rest.starts_with('/') || rest.starts_with('"') {
           touched.push(line.chars().take(220).collect());
+          break;
         }
+        from = pos + needle.len();
       }
     }
     l.eval();
